@@ -16,12 +16,111 @@ def _local_arg(n, i=0):
     return a.get('n') if a.get('k') == 'Local' else None
 
 
+def disjuncts(c):
+    """the operands of a pure `||` tree (a single condition is its own only disjunct); the condition being false makes each of them false"""
+    c = T.peel(c)
+    if c.get('k') == 'Binary' and c.get('op') == '||':
+        return disjuncts(c['x']) + disjuncts(c['y'])
+    return [c]
+
+
+def acyclic_rules(chk, fx, rid):
+    chk.rule(rid, 'the module graph is acyclic by construction: a dependency edge is added (Node::push_dep / depends_on.insert of a new key) only in ModuleGraph::inc_ref, '
+                       'after `referrer == depends_on` returned and `deep_depends_on(depends_on, referrer)` returned Err; the build loop relies on it to terminate')
+    # --- R5
+    g, meta = CG.graph(fx, 'erg_compiler')
+    writers = []
+    for f in fx.fns(GR):
+        nm = T.norm(f['path'])
+        for n in T.walk(f['body']):
+            if n.get('k') == 'MCall' and n['n'] == 'push_dep':
+                writers.append((nm, n))
+    chk.floor('push_dep sites', len(writers), 1)
+    inc = fx.fn(GR, 'ModuleGraph::inc_ref')
+    for nm, n in writers:
+        if nm != 'ModuleGraph::inc_ref':
+            chk.bad(rid, nm, 'edge-writer', '%s adds a dependency edge without the cycle test of ModuleGraph::inc_ref' % nm, GR, n['l'])
+    if chk.need(inc is not None, 'ModuleGraph::inc_ref not found'):
+        tests = {}
+        weakened = {}
+        for n in T.walk(inc['body']):
+            if n.get('k') == 'If' and any(r.get('k') == 'Ret' for r in T.walk(n['t'])):
+                cs = T.show(n['c']).replace(' ', '')
+                ds = disjuncts(n['c'])
+                if 'deep_depends_on' in cs:
+                    if any(T.peel(x_).get('k') == 'MCall' and T.peel(x_)['n'] == 'deep_depends_on' for x_ in ds):
+                        tests['cycle'] = n
+                    else:
+                        weakened['cycle'] = n
+                elif '==' in cs and 'referrer' in cs and 'depends_on' in cs:
+                    if any(T.peel(x_).get('k') == 'Binary' and T.peel(x_)['op'] == '==' for x_ in ds):
+                        tests['self'] = n
+                    else:
+                        weakened['self'] = n
+        for key, n in weakened.items():
+            chk.bad(rid, 'ModuleGraph::inc_ref', 'weakened-%s-test' % key, 'the %s test of inc_ref is only one conjunct of `%s`: when another conjunct is false the edge is added '
+                    'without the test, so a cyclic edge can enter the graph' % (key, T.show(n['c'])[:90]), GR, n['l'])
+            tests.setdefault(key, n)
+        for key in ('cycle', 'self'):
+            if key not in tests and writers:
+                chk.bad(rid, 'ModuleGraph::inc_ref', 'no-%s-test' % key, 'inc_ref adds a dependency edge without %s' % (
+                    'testing whether the new dependency already reaches the referrer (deep_depends_on): a cyclic edge enters the graph and the build loop does not end' if key == 'cycle'
+                    else 'setting aside `referrer == depends_on`: a self-import becomes a self-edge'), GR, inc['line'])
+        if set(tests) == {'cycle', 'self'}:
+            cyc = tests['cycle']
+            c = [x for x in T.calls(cyc['c']) if x.get('k') == 'MCall' and x['n'] == 'deep_depends_on'][0]
+            a0, a1 = _local_arg(c, 0), _local_arg(c, 1)
+            errs = [r for r in T.walk(cyc['t']) if r.get('k') == 'Ret' and 'Err' in T.show(r.get('x') or {})]
+            if (a0, a1) == ('depends_on', 'referrer') and errs:
+                chk.ok(rid, 'cycle-test', sample='inc_ref: if self.deep_depends_on(&depends_on, referrer) { return Err(CycleDetected) }')
+            else:
+                chk.bad(rid, 'ModuleGraph::inc_ref', 'cycle-test', 'the cycle test of inc_ref is `%s` (expected: the new dependency already reaches the referrer -> Err)'
+                        % T.show(cyc['c'])[:100], GR, cyc['l'])
+            state = {'n': 0}
+
+            def acts5(n):
+                return n.get('k') == 'MCall' and n['n'] == 'push_dep'
+
+            def refine5(cond, branch, st):
+                if cond is cyc['c']:
+                    return ((not branch) and st is not False) if st is not None else None
+                return None
+            # both tests must have been passed (false) before push_dep: run twice
+            for key in ('cycle', 'self'):
+                tn = tests[key]
+
+                def refine_k(cond, branch, st, tn=tn):
+                    if cond is tn['c']:
+                        return (not branch) or st
+                    return None
+                dom = VS.Dominates(lambda n: False, acts5, refine_k)
+                bad = dom.run(inc)
+                for b in bad:
+                    chk.bad(rid, 'ModuleGraph::inc_ref', 'edge-before-%s-test' % key, 'inc_ref adds the edge on a path that skipped the %s test' % key, GR, b['l'])
+                if not bad and dom.good_exits:
+                    chk.ok(rid, ('dominates', key))
+    # R5b: the reachability test itself is transitive
+    dd = fx.fn(GR, 'ModuleGraph::deep_depends_on_')
+    if chk.need(dd is not None, 'ModuleGraph::deep_depends_on_ not found'):
+        rec = [c for c in T.calls(dd['body']) if c.get('k') == 'MCall' and c['n'] == 'deep_depends_on_']
+        anys = [c for c in T.calls(dd['body']) if c.get('k') == 'MCall' and c['n'] == 'any' and 'depends_on' in T.show(T.peel(c['r']))
+                and any(x is r for r in rec for a in c['a'] for x in T.walk(a))]
+        direct = [c for c in T.calls(dd['body']) if c.get('k') == 'MCall' and c['n'] == 'contains' and 'depends_on' in T.show(T.peel(c['r'])) and _local_arg(c) == 'target']
+        ors = [n for n in T.walk(dd['body']) if n.get('k') == 'Binary' and n.get('op') in ('||', 'Or') and direct and anys
+               and any(x is direct[0] for x in T.walk(n)) and any(x is anys[0] for x in T.walk(n))]
+        same_target = rec and all(_local_arg(r, 1) == 'target' for r in rec)
+        if rec and anys and direct and ors and same_target:
+            chk.ok(rid, 'transitive', sample='deep_depends_on_: depends_on.contains(target) || depends_on.iter().any(|p| self.deep_depends_on_(p, target, visited))')
+        else:
+            chk.bad(rid, 'ModuleGraph::deep_depends_on_', 'transitive', 'deep_depends_on_ is no longer `direct dependency || some dependency reaches the target` '
+                    '(recursive calls %d, under any(): %d, direct test: %d, joined by ||: %d): cycles longer than the test sees enter the graph'
+                    % (len(rec), len(anys), len(direct), len(ors)), GR, dd['line'])
+
+
 def import_rules(chk, fx):
     chk.rule('C20-R3', 'each module is resolved once: in PackageBuilder::register the source of a module X is parsed (self.parse(&X)) and entered into self.asts only on paths where '
                        '`X == from_path || self.inlines.contains_key(&X) || self.asts.contains_key(&X)` was false (for the imported module and for its package root)')
     chk.rule('C20-R4', 'import cycles end the descent: the imported module is parsed / resolved only after `graph.inc_ref(&from_path, X)` succeeded, its Err edge returning a ResolveError')
-    chk.rule('C20-R5', 'the module graph is acyclic by construction: a dependency edge is added (Node::push_dep / depends_on.insert of a new key) only in ModuleGraph::inc_ref, '
-                       'after `referrer == depends_on` returned and `deep_depends_on(depends_on, referrer)` returned Err; the build loop relies on it to terminate')
     chk.rule('C20-R7', 'every import of a module is registered: PackageBuilder::resolve and check_import accumulate the errors of their sub-scans and have no `?`, `return` or '
                        '`break` that would skip the remaining chunks / arguments')
     chk.rule('C20-R6', 'each module is analysed once and every waiter is released: build_deps_and_module starts an analysis only with the entry it *removed* from self.asts, removes the '
@@ -39,8 +138,9 @@ def import_rules(chk, fx):
                 seen_tests[_local_arg(keys[0])] = n
     chk.floor('seen-tests in PackageBuilder::register', len(seen_tests), 2)
     for X, test in sorted(seen_tests.items()):
-        cs = T.show(test['c']).replace(' ', '')
-        complete = ('inlines.contains_key' in cs) and ('asts.contains_key' in cs) and ('==' in cs and 'from_path' in cs)
+        ds = [T.show(x).replace(' ', '') for x in disjuncts(test['c'])]
+        complete = any('inlines.contains_key' in x_ and '&&' not in x_ for x_ in ds) and any('asts.contains_key' in x_ and '&&' not in x_ for x_ in ds) \
+            and any('==' in x_ and 'from_path' in x_ and '&&' not in x_ for x_ in ds)
 
         def acts(n, X=X):
             if n.get('k') != 'MCall':
@@ -97,82 +197,7 @@ def import_rules(chk, fx):
                     'an import cycle is followed without end' % (X, X), BP, b['l'])
         if not bad:
             chk.ok('C20-R4', X, sample='inc_ref(&from_path, %s) is tested before parse(&%s)' % (X, X))
-    # --- R5
-    g, meta = CG.graph(fx, 'erg_compiler')
-    writers = []
-    for f in fx.fns(GR):
-        nm = T.norm(f['path'])
-        for n in T.walk(f['body']):
-            if n.get('k') == 'MCall' and n['n'] == 'push_dep':
-                writers.append((nm, n))
-    chk.floor('push_dep sites', len(writers), 1)
-    inc = fx.fn(GR, 'ModuleGraph::inc_ref')
-    for nm, n in writers:
-        if nm != 'ModuleGraph::inc_ref':
-            chk.bad('C20-R5', nm, 'edge-writer', '%s adds a dependency edge without the cycle test of ModuleGraph::inc_ref' % nm, GR, n['l'])
-    if chk.need(inc is not None, 'ModuleGraph::inc_ref not found'):
-        tests = {}
-        for n in T.walk(inc['body']):
-            if n.get('k') == 'If' and any(r.get('k') == 'Ret' for r in T.walk(n['t'])):
-                cs = T.show(n['c']).replace(' ', '')
-                if 'deep_depends_on' in cs:
-                    tests['cycle'] = n
-                elif '==' in cs and 'referrer' in cs and 'depends_on' in cs:
-                    tests['self'] = n
-        for key in ('cycle', 'self'):
-            if key not in tests and writers:
-                chk.bad('C20-R5', 'ModuleGraph::inc_ref', 'no-%s-test' % key, 'inc_ref adds a dependency edge without %s' % (
-                    'testing whether the new dependency already reaches the referrer (deep_depends_on): a cyclic edge enters the graph and the build loop does not end' if key == 'cycle'
-                    else 'setting aside `referrer == depends_on`: a self-import becomes a self-edge'), GR, inc['line'])
-        if set(tests) == {'cycle', 'self'}:
-            cyc = tests['cycle']
-            c = [x for x in T.calls(cyc['c']) if x.get('k') == 'MCall' and x['n'] == 'deep_depends_on'][0]
-            a0, a1 = _local_arg(c, 0), _local_arg(c, 1)
-            errs = [r for r in T.walk(cyc['t']) if r.get('k') == 'Ret' and 'Err' in T.show(r.get('x') or {})]
-            if (a0, a1) == ('depends_on', 'referrer') and errs:
-                chk.ok('C20-R5', 'cycle-test', sample='inc_ref: if self.deep_depends_on(&depends_on, referrer) { return Err(CycleDetected) }')
-            else:
-                chk.bad('C20-R5', 'ModuleGraph::inc_ref', 'cycle-test', 'the cycle test of inc_ref is `%s` (expected: the new dependency already reaches the referrer -> Err)'
-                        % T.show(cyc['c'])[:100], GR, cyc['l'])
-            state = {'n': 0}
-
-            def acts5(n):
-                return n.get('k') == 'MCall' and n['n'] == 'push_dep'
-
-            def refine5(cond, branch, st):
-                if cond is cyc['c']:
-                    return ((not branch) and st is not False) if st is not None else None
-                return None
-            # both tests must have been passed (false) before push_dep: run twice
-            for key in ('cycle', 'self'):
-                tn = tests[key]
-
-                def refine_k(cond, branch, st, tn=tn):
-                    if cond is tn['c']:
-                        return (not branch) or st
-                    return None
-                dom = VS.Dominates(lambda n: False, acts5, refine_k)
-                bad = dom.run(inc)
-                for b in bad:
-                    chk.bad('C20-R5', 'ModuleGraph::inc_ref', 'edge-before-%s-test' % key, 'inc_ref adds the edge on a path that skipped the %s test' % key, GR, b['l'])
-                if not bad and dom.good_exits:
-                    chk.ok('C20-R5', ('dominates', key))
-    # R5b: the reachability test itself is transitive
-    dd = fx.fn(GR, 'ModuleGraph::deep_depends_on_')
-    if chk.need(dd is not None, 'ModuleGraph::deep_depends_on_ not found'):
-        rec = [c for c in T.calls(dd['body']) if c.get('k') == 'MCall' and c['n'] == 'deep_depends_on_']
-        anys = [c for c in T.calls(dd['body']) if c.get('k') == 'MCall' and c['n'] == 'any' and 'depends_on' in T.show(T.peel(c['r']))
-                and any(x is r for r in rec for a in c['a'] for x in T.walk(a))]
-        direct = [c for c in T.calls(dd['body']) if c.get('k') == 'MCall' and c['n'] == 'contains' and 'depends_on' in T.show(T.peel(c['r'])) and _local_arg(c) == 'target']
-        ors = [n for n in T.walk(dd['body']) if n.get('k') == 'Binary' and n.get('op') in ('||', 'Or') and direct and anys
-               and any(x is direct[0] for x in T.walk(n)) and any(x is anys[0] for x in T.walk(n))]
-        same_target = rec and all(_local_arg(r, 1) == 'target' for r in rec)
-        if rec and anys and direct and ors and same_target:
-            chk.ok('C20-R5', 'transitive', sample='deep_depends_on_: depends_on.contains(target) || depends_on.iter().any(|p| self.deep_depends_on_(p, target, visited))')
-        else:
-            chk.bad('C20-R5', 'ModuleGraph::deep_depends_on_', 'transitive', 'deep_depends_on_ is no longer `direct dependency || some dependency reaches the target` '
-                    '(recursive calls %d, under any(): %d, direct test: %d, joined by ||: %d): cycles longer than the test sees enter the graph'
-                    % (len(rec), len(anys), len(direct), len(ors)), GR, dd['line'])
+    acyclic_rules(chk, fx, 'C20-R5')
     # --- R7: the import scan does not stop at the first error
     for fname in ('GenericPackageBuilder::resolve', 'GenericPackageBuilder::check_import'):
         f = fx.fn(BP, fname)
